@@ -69,7 +69,7 @@ PLANS['C11'] = dict(level='exploration',
     rule="near-duplicate families (single-component edits, NULL vs empty, '/a' vs 'a', same IPv6 address spelled differently): all ordered pairs, reflexivity, symmetry, transitivity, NULL arguments, arguments unchanged; plus pairs of library-produced objects from random histories (equal <=> identical text, also against a re-parse); plus every result of the systematic resolution, normalisation and reference-creation enumerations against the parse of its own text, both ways round; distinct = distinct ordered pairs",
     assumptions=A_MODELS)
 PLANS['C12'] = dict(level='exploration',
-    runs=[R('owner', 'fast', dict(random=1000000), dict(random=12000000), dict(hostkind_1=1000, hostkind_2=500, hostkind_3=500, hostkind_4=300)),
+    runs=[R('owner', 'fast', dict(random=1000000), dict(random=12000000), dict(hostkind_1=1000, hostkind_2=500, hostkind_3=500, hostkind_4=300, paths_of_more_than_65535_segments=5)),
           R('owner', 'asan', dict(random=400000), dict(random=4000000)),
           R('hist', 'asan', dict(histories=150000), dict(histories=6000000), dict(ownership_transfers_checked=10000)),
           R('hist', 'fast', dict(histories=300000), dict(histories=12000000)),
